@@ -21,6 +21,10 @@ M = [
  ('C11-m7', 'C11', CORE + 'validator/coreschema.rs', '        if let (Some(context), Some(action)) = (request.context(), action_uid) {\n            self.validate_context(context, action, extensions)?;\n        }', ''),
  ('C11-m8', 'C11', CORE + 'entities/conformance.rs', '                    if !schema_etype.open_attributes() {', '                    if false {'),
  ('C11-m9', 'C11', CORE + 'entities/conformance.rs', '            Some(actual_euid) if actual_euid.entity_type() == ty => Ok(()),', '            Some(_) => Ok(()),'),
+ ('C04-m1', 'C04', CORE + 'transitive_closure.rs', 'if self_loop || vstack.last().expect("vertex stack must be non-empty") != node_id {', 'if vstack.last().expect("vertex stack must be non-empty") != node_id {'),
+ ('C04-m2', 'C04', CORE + 'transitive_closure.rs', '                    if !entity.has_edge_to(grandparent) {', '                    if false && !entity.has_edge_to(grandparent) {'),
+ ('C04-m3', 'C04', CORE + 'transitive_closure.rs', '        if entity.out_edges().contains(&key) {', '        if false && entity.out_edges().contains(&key) {'),
+ ('C04-m4', 'C04', CORE + 'transitive_closure.rs', '                    succ.extend(comp_succ[tail_elt].clone());', ''),
  ('C16-m1', 'C16', CORE + 'validator/level_validate.rs', None, None),
 ]
 
